@@ -162,6 +162,9 @@ class World:
                 self.keys.setdefault(k, h)
             except self.RedunDatabaseError:
                 res = ["toolarge"]
+            except Exception as e:  # anything else is an outcome the model does not have
+                res = ["error"]
+                note = f"record_value raised {type(e).__name__}: {e}"
         elif n == "putonly":
             val = self.value(op["v"])
             vi = self.b.type_registry.get_value(val)
@@ -170,22 +173,27 @@ class World:
             self.b.value_store.put(h, data)
             self.keys.setdefault(vkey(op["v"]), h)
         elif n == "delstore":
-            path = self.b.value_store.get_value_path(self.keys[vkey(op["v"])])
-            if not os.path.exists(path):
-                raise MachineryError(f"store object expected at {path}")
-            os.remove(path)
+            # (if the code put nothing there the model and the code differ in location only: the
+            # deletion is a no-op and the reads that follow decide)
+            h = self.keys.get(vkey(op["v"]))
+            path = self.b.value_store.get_value_path(h) if h else ""
+            if path and os.path.exists(path):
+                os.remove(path)
         elif n == "delfile":
             path = self.fc_path(self.value(op["v"]))
-            if not os.path.exists(path):
-                raise MachineryError(f"file-cache file expected at {path}")
-            os.remove(path)
+            if os.path.exists(path):
+                os.remove(path)
         elif n == "setmin":
             self.b.value_store_min_size = MIN[op["mn"]]
         else:
             raise MachineryError(f"unknown op {op}")
         gets = []
         for k, h in self.keys.items():
-            val, ok = self.b.get_value(h)
+            try:
+                val, ok = self.b.get_value(h)
+            except Exception as e:  # neither the value nor absent
+                gets.append([json.loads(k), ["error", type(e).__name__]])
+                continue
             gets.append([json.loads(k), json.loads(self.ident(val)) if ok and self.ident(val) != "other"
                          else (["other"] if ok else ["absent"])])
         return {"res": res, "gets": gets, "note": note}
@@ -223,10 +231,10 @@ def judge(obs: dict, step: dict) -> tuple[str, bool]:
     for v, r in obs["gets"]:
         if r != ["absent"] and r != v:
             return "wrong", False
-    if obs["note"]:
-        return "key", False
     if obs["res"][0] != step["res"][0]:
         return "res", False
+    if obs["note"]:
+        return "key", False
     unread = [v for v, r in obs["gets"] if r == ["absent"] and gf[vkey(v)] != ["absent"]]
     if unread:
         return "unreadable", all(g[vkey(v)] == ["absent"] for v in unread)
@@ -300,24 +308,18 @@ def gen_random_trace(rng, w: World, uniq: str, n_ops: int) -> dict:
             if n == "putonly" and (dlen > 9 or dlen < cur or vkey(v) in in_store):
                 continue
             op["v"] = v
-            if dlen <= 9:
-                if dlen >= cur:
-                    in_store.add(vkey(v))
-                if v[0] == "fc":
-                    has_file.add(vkey(v))
         elif n == "delstore":
-            k = rng.choice(sorted(in_store))
-            in_store.discard(k)
-            op["v"] = json.loads(k)
+            op["v"] = json.loads(rng.choice(sorted(in_store)))
         elif n == "delfile":
-            k = rng.choice(sorted(has_file))
-            has_file.discard(k)
-            op["v"] = json.loads(k)
+            op["v"] = json.loads(rng.choice(sorted(has_file)))
         else:
             op["mn"] = rng.choice([m for m in (0, 3, 100) if m != cur])
             cur = op["mn"]
         obs = w.apply(op)
         steps.append({"op": op, "res": obs["res"], "gets": obs["gets"], "note": obs["note"]})
+        # what can be deleted next is read off the real store / cache directory, not assumed
+        in_store = {k for k, h in w.keys.items() if w.b.value_store.has(h)}
+        has_file = {k for k in w.keys if k.startswith('["fc"') and os.path.exists(w.fc_path(w.value(json.loads(k))))}
     return {"min0": min0, "steps": steps}
 
 
